@@ -33,6 +33,7 @@ def exec_route(spec, env):
         v = rt.build(spec["pre_variant"], env, {})
         outs.append(rt.outcome(lambda: [sm.Partial(v, spec["var"]).as_expression(), sm.Partial(v, spec["var"], compute_early=True),
                                         sm.Differential(v, compute_early=True), v._normalize()] and 0))
+    p = rt.make_point(coords(supplied, env))
     for (r, target, pname) in spec.get("pre", []):
         tgt = e if target == "root" else memo[target]
         if r == "embed":
@@ -46,19 +47,20 @@ def exec_route(spec, env):
             o = rt.outcome(lambda: tgt._normalize())
         else:
             if pname == "":
-                pt = rt.make_point(coords(supplied, env))          # an equal but separately built main point (possibly incomplete)
+                pt = p                                             # the main point itself: the very same Point OBJECT (possibly incomplete)
+            elif pname == "=":
+                pt = rt.make_point(coords(supplied, env))          # an equal but separately built main point
             else:
                 pt = rt.make_point(coords(spec.get("pre_supplied", rt.variables_of(spec["d"])), env, pname + "_"))
             o = rt.run_route(r, tgt, spec.get("var"), pt)
         outs.append(o)
-    p = rt.make_point(coords(supplied, env))
     reuse = spec.get("reuse_seq")
     for r in spec["routes"]:
         if reuse and r in rt.ROUTE_PARTS:
             # one long-lived object queried repeatedly, with the expression used through other entry points in between
             def pt(pn):
                 return p if pn == "" else rt.make_point(coords(spec.get("pre_supplied", vs), env, pn + "_"))
-            steps = [(st[0], pt(st[1])) if st[0] in ("obj", "comp") else ("expr", st[1], pt(st[2])) for st in reuse]
+            steps = [(st[0], pt(st[1])) if st[0] in ("obj", "comp", "at") else ("expr", st[1], pt(st[2])) for st in reuse]
             outs.append(rt.run_route_reusing(r, e, spec["vars"] if r.endswith("_all") else spec.get("var"), steps, p))
         else:
             v = spec["vars"] if r.endswith("_all") else ([spec["var"], spec["var2"]] if r.startswith("synth2") else spec.get("var"))
@@ -87,7 +89,7 @@ def input_names(spec):
     for n in spec.get("extra_inputs", []):
         if n not in names:
             names.append(n)
-    pre_points = sorted({p for (_, _, p) in spec.get("pre", []) if p} | {st[-1] for st in spec.get("reuse_seq", []) if st[-1]})
+    pre_points = sorted({p for (_, _, p) in spec.get("pre", []) if p and p != "="} | {st[-1] for st in spec.get("reuse_seq", []) if st[-1]})
     for pn in pre_points:
         for v in spec.get("pre_supplied", vs):
             names.append(pn + "_" + v)
